@@ -119,7 +119,35 @@ pub fn check_faulty(text: &str, planted: &[Planted]) -> Result<Vec<String>, (Str
     }
 }
 
-fn check_tape(tape: &[u8], gates: &Gates, stats: &mut Stats, counting: bool, per_kind: usize, all_sites_limit: usize) -> Result<(), Failure> {
+/// second observation point of the property: `ironplcc check` exit status and error[Pnnnn] lines
+fn cli_agrees(text: &str, stats: &mut Stats) -> Result<(), (String, String)> {
+    let (v, _) = analyze_text(text, "c02.st");
+    let want: Vec<String> = match &v {
+        Verdict::Ok => vec![],
+        Verdict::Err(ds) => codes_of(ds),
+        Verdict::ParseErr(_) => vec!["P0002".into()],
+        Verdict::Panic(_) => return Ok(()),
+    };
+    let dir = crate::drive::Scratch::new("c02");
+    let p = dir.write("c02.st", text.as_bytes()).to_string_lossy().to_string();
+    let out = crate::drive::run_cli(&["check".to_string(), p], None);
+    if out.timed_out {
+        stats.inconclusive += 1;
+        return Ok(());
+    }
+    stats.class("cli.check-run");
+    let mut got: Vec<String> = crate::drive::parse_cli_diags(&out.stderr).into_iter().map(|d| d.code).collect();
+    got.sort();
+    if (out.status == Some(0)) != want.is_empty() {
+        return Err(("cli-verdict-differs".into(), format!("`ironplcc check` exits {:?}; in-process analysis gives codes {:?}", out.status, want)));
+    }
+    if got != want {
+        return Err(("cli-codes-differ".into(), format!("`ironplcc check` prints codes {:?}; in-process analysis gives {:?}", got, want)));
+    }
+    Ok(())
+}
+
+fn check_tape(tape: &[u8], gates: &Gates, stats: &mut Stats, counting: bool, per_kind: usize, all_sites_limit: usize, cli_budget: &std::sync::atomic::AtomicI64) -> Result<(), Failure> {
     let profile = Profile::default();
     let mut t = Tape::new(tape);
     let unit = gen_unit(&mut t, gates, &profile);
@@ -201,6 +229,19 @@ fn check_tape(tape: &[u8], gates: &Gates, stats: &mut Stats, counting: bool, per
             })?;
         }
     }
+    // the binary (sample): the valid unit and one mutant
+    if counting && cli_budget.fetch_sub(1, std::sync::atomic::Ordering::Relaxed) > 0 {
+        cli_agrees(&text, stats).map_err(|(k, d)| Failure::new("cli", &k, d, json!({"text": text})))?;
+        let ks: Vec<&FaultKind> = ALL_FAULTS.iter().filter(|k| unit.sites[k.index()] > 0).collect();
+        if !ks.is_empty() {
+            let k = *ks[choice.below(ks.len())];
+            let s = choice.below(unit.sites[k.index()]);
+            let mut t2 = Tape::new(tape);
+            let fu = gen_unit_with(&mut t2, gates, &profile, Some((k, s)));
+            let ftext = spell_unit(&fu, gates);
+            cli_agrees(&ftext, stats).map_err(|(k2, d)| Failure::new("cli", &k2, d, json!({"text": ftext})))?;
+        }
+    }
     // one double fault
     let kinds: Vec<&FaultKind> = ALL_FAULTS.iter().filter(|k| unit.sites[k.index()] > 0).collect();
     if kinds.len() >= 2 {
@@ -237,15 +278,16 @@ pub fn run(ctx: &Ctx) -> i32 {
         ctx.tier,
         ctx.seed,
         "fault_enumeration",
-        "valid-by-construction units (types, functions, function blocks incl. SFC bodies, programs, configuration; every name declared, P9999 constructs avoided) must analyse Ok; each unit is re-generated with exactly one planted fault (16 rule kinds = documented Fails shapes; every applicable site for small units, a sample per kind for large ones) and must fail with the rule's published code among its codes; one random double fault per unit must fail. Non-trivial: every mutant, and valid units with >= 2 declarations that analysed Ok; distinct by text hash.",
+        "valid-by-construction units (types, functions, function blocks incl. SFC bodies, programs, configuration; every name declared, P9999 constructs avoided) must analyse Ok; each unit is re-generated with exactly one planted fault (16 rule kinds = documented Fails shapes; every applicable site for small units, a sample per kind for large ones) and must fail with the rule's published code among its codes; one random double fault per unit must fail; for a sample the exit status and error[Pnnnn] codes of `ironplcc check` must equal the in-process verdict and codes. Non-trivial: every mutant, and valid units with >= 2 declarations that analysed Ok; distinct by text hash.",
     );
     let gates = ctx.gates_for("C02");
     let off = gates.off_list();
     let cases = ctx.tier.pick(60_000, 1_000_000);
     let (per_kind, all_limit) = ctx.tier.pick((2, 40), (4, 120));
+    let cli_budget = std::sync::atomic::AtomicI64::new(ctx.tier.pick(300, 6000));
     let out = run_tapes("C02", ctx.seed, ctx.threads, cases, 900, |tape, stats, counting| {
         let g = Gates::with_off(off.clone());
-        check_tape(tape, &g, stats, counting, per_kind, all_limit)
+        check_tape(tape, &g, stats, counting, per_kind, all_limit, &cli_budget)
     });
     rep.add(out);
     // health: every fault kind must have been exercised, generator health failures must be rare
@@ -307,6 +349,10 @@ pub fn replay(ctx: &Ctx, v: &Value) -> i32 {
             _ => Err("double fault accepted".into()),
         },
         "witness" => witness(&v["inputs"]),
+        "cli" => {
+            let mut st = Stats::default();
+            cli_agrees(text, &mut st).map_err(|(k, d)| format!("{}: {}", k, d))
+        }
         c => Err(format!("unknown check {}", c)),
     };
     match r {
